@@ -42,7 +42,7 @@ fn parse_report(text: &str) -> (String, String) {
     (kind, msg_template(&frame.replace("::h", "::").chars().take(80).collect::<String>()))
 }
 
-fn run_sub(check: &'static str, wall_cap: Duration) -> Result<SubRun, String> {
+fn run_sub(check: &'static str, wall_cap: Duration, thorough: bool) -> Result<SubRun, String> {
     let root = verif_root().join("target").join("c16").join(check);
     let _ = std::fs::remove_dir_all(&root);
     std::fs::create_dir_all(root.join("asan")).map_err(|e| e.to_string())?;
@@ -51,7 +51,7 @@ fn run_sub(check: &'static str, wall_cap: Duration) -> Result<SubRun, String> {
     }
     let start = Instant::now();
     let mut child = Command::new(asan_bin())
-        .args([check, "--tier", "quick"])
+        .args([check, "--tier", if check == "C16A" && thorough { "thorough" } else { "quick" }])
         .env_remove("VERIF_CHILD")
         .env_remove("VERIF_INFLIGHT")
         .env_remove("VERIF_SKIP_FILE")
@@ -109,15 +109,15 @@ pub fn run(tier: Tier) -> i32 {
         return rep.finish();
     }
     let (subs, cap): (Vec<&'static str>, u64) = match tier {
-        Tier::Quick => (vec!["C10", "C06"], 900),
-        Tier::Thorough => (vec!["C01", "C03", "C05", "C06", "C07", "C08", "C09", "C10", "C11", "C12", "C13", "C17", "C19", "C20", "C04"], 7200),
+        Tier::Quick => (vec!["C16A", "C10"], 900),
+        Tier::Thorough => (vec!["C16A", "C01", "C03", "C05", "C06", "C07", "C08", "C09", "C10", "C11", "C12", "C13", "C17", "C19", "C20", "C04"], 7200),
     };
     let mut total = 0u64;
     let mut per = Vec::new();
     let mut kinds: BTreeSet<String> = BTreeSet::new();
     let mut samples = Vec::new();
     for s in subs {
-        match run_sub(s, Duration::from_secs(cap)) {
+        match run_sub(s, Duration::from_secs(cap), tier.is_thorough()) {
             Err(e) => rep.machinery_errors.push(e),
             Ok(r) => {
                 total += r.evaluations;
@@ -147,7 +147,7 @@ pub fn run(tier: Tier) -> i32 {
     }
     rep.cov("evaluations", json!(total));
     rep.cov("distinct_nontrivial", json!(total));
-    rep.cov("rule", json!("every execution of the quick enumeration of the listed checks (quick: valid Parquet files, joins; thorough: all statement-level checks and the schedule explorers) is repeated on an AddressSanitizer build (engine + harness, debug assertions and overflow checks on); non-trivial = executed under the sanitizer (counted from the sub-run's own evidence). Functional verdicts of the sub-runs belong to their own properties and are ignored here; only sanitizer reports count"));
+    rep.cov("rule", json!("every execution of the quick enumeration of the listed checks (quick: the buffer-boundary alphabet C16A - value lengths around the 12-byte inline limit and multi-block heaps x row counts around the 2048-row chunk x partitions / batch sizes x 30 operator templates and file reads - and C10's valid Parquet files; thorough: all statement-level checks and the schedule explorers) is repeated on an AddressSanitizer build (engine + harness, debug assertions and overflow checks on); non-trivial = executed under the sanitizer (counted from the sub-run's own evidence). Functional verdicts of the sub-runs belong to their own properties and are ignored here; only sanitizer reports count"));
     rep.cov("per_enumeration", json!(per));
     rep.cov("distinct_outcomes", json!(kinds.into_iter().collect::<Vec<_>>()));
     rep.cov("samples", json!(samples));
